@@ -69,23 +69,66 @@ def spec_match(g, p):
     return spec_match_tokens(t, p)
 
 def field_matches(patterns, path):
-    """'1'/'0' for a list of patterns, or None when an invalid escape is reached before a match
-    (no claim: DEP-5 calls that an error)"""
+    """'1'/'0' for a list of patterns: a pattern with an invalid escape matches nothing (DEP-5
+    calls it an error; the lookup must still answer for the other patterns and paragraphs)"""
+    for g in patterns:
+        if spec_match(g, path):
+            return "1"
+    return "0"
+
+def reaches_invalid(patterns, path):
+    """is a pattern with an invalid escape tried (no earlier pattern of the list matches)?
+    That is where the code without C17-invalid-glob-escape panics."""
     for g in patterns:
         r = spec_match(g, path)
         if r is None:
-            return None
+            return True
         if r:
-            return "1"
-    return "0"
+            return False
+    return False
+
+def has_invalid(patterns):
+    return any(glob_tokens(g) is None for g in patterns)
 
 def count_wildcards(g):
     return sum(1 for c in g if c in "*?")
 
+def regex_size_weight(g):
+    """over-estimate of the compiled size of the regex for g: a literal costs 32 bytes per UTF-8
+    byte (measured: first failure at 327 675 bytes, whatever the characters: 81 919 x U+1F600,
+    109 225 x U+4E2D, 163 838 x U+00E9, 327 675 x 'a'), a wildcard between 964 and 1 064
+    (measured first failures between 9 855 and 10 878 wildcards); the costs add up
+    (100 000 x 'a' + 7 257 x '*', 200 000 x 'a' + 4 239 x '?', 300 000 x 'a' + 883 x '*' fail)"""
+    return 1100 * count_wildcards(g) + 32 * len(g.encode("utf-8"))
+
 def in_regex_size_class(patterns):
     """known-finding class glob-regex-size-limit: the regex crate refuses to compile the pattern
-    (default 10 MiB size limit): first failures measured at 9855 wildcards / 327675 literals"""
-    return any(count_wildcards(g) >= 8192 or len(g) >= 262144 for g in patterns)
+    (default 10 MiB size limit).  Decidable over-approximation of where that happens."""
+    return any(regex_size_weight(g) >= 10_000_000 for g in patterns)
+
+def raw_path(b):
+    """case-file field for a path given as raw bytes that are not valid UTF-8: the harness builds
+    the path from the bytes, the model sees the lossy conversion (Rust's to_string_lossy and
+    Python's errors='replace' both replace every maximal invalid subpart by U+FFFD)"""
+    return "!" + b.hex() + ":" + hexs(b.decode("utf-8", errors="replace"))
+
+def path_of_field(f):
+    """the string the lookup should see for a path field"""
+    if f.startswith("!"):
+        return bytes.fromhex(f[1:].split(":")[0]).decode("utf-8", errors="replace")
+    return bytes.fromhex(f).decode("utf-8")
+
+SPECIAL_NAMES = ["Files", "License", "Copyright", "Format"]
+def field_name_case_class(text):
+    """known-finding class field-name-case: a line starts with Files / License / Copyright /
+    Format spelled in another case, followed by a colon"""
+    for line in text.split("\n"):
+        name = line.split(":", 1)[0] if ":" in line else None
+        if name is not None:
+            for k in SPECIAL_NAMES:
+                if name.lower() == k.lower() and name != k:
+                    return True
+    return False
 
 # ------------------------------------------------------------------ glob stream
 GLOB_FIELD_ALPHABET = ["a", ".", "+", "(", "[", "*", "?", "\\", "/", " ", "\n"]
@@ -165,21 +208,62 @@ def glob_cases(tier, rng, prefix="g"):
     return cases
 
 def glob_size_limit_cases(prefix="z"):
-    """one member of the known-finding class glob-regex-size-limit, one just-below control"""
+    """members of the known-finding class glob-regex-size-limit (wildcards only; literals only,
+    4 bytes each — 90 000 characters, far below any character count that matters for ASCII;
+    a mixture neither part of which is large on its own) and two controls outside the class"""
+    smile = "\U0001f600"
     return [(f"{prefix}0", [hexs("?" * 12000), hexs("a" * 12000)]),
-            (f"{prefix}1", [hexs("?" * 6000), hexs("a" * 6000), hexs("a" * 5999)])]
+            (f"{prefix}1", [hexs("?" * 6000), hexs("a" * 6000), hexs("a" * 5999)]),
+            (f"{prefix}2", [hexs(smile * 90000), hexs(smile * 90000), hexs("b")]),
+            (f"{prefix}3", [hexs("a" * 100000 + "*" * 8000), hexs("b"), hexs("a" * 100000)]),
+            (f"{prefix}4", [hexs(smile * 60000 + "?" * 1500), hexs("b"), hexs(smile * 60000 + "x" * 1500)])]
 
 def glob_nonutf8_cases(prefix="u"):
-    """members of the known-finding class non-utf8-path: a path field "!<hex>" is raw bytes"""
-    return [(f"{prefix}0", [hexs("*"), "!ff", "!61ff62", hexs("a")]),
-            (f"{prefix}1", [hexs(""), "!ff"]),                 # no pattern to try: no panic, no match
-            (f"{prefix}2", [hexs("\\x *"), "!c328"])]          # the invalid escape panics first
+    """paths that are not valid UTF-8 (see raw_path)"""
+    return [(f"{prefix}0", [hexs("*"), raw_path(b"\xff"), raw_path(b"a\xffb"), hexs("a")]),
+            (f"{prefix}1", [hexs(""), raw_path(b"\xff")]),          # no pattern to try: no match
+            (f"{prefix}2", [hexs("\\x *"), raw_path(b"\xc3(")]),   # an invalid escape first
+            (f"{prefix}3", [hexs("debian/?.c a?b ??"), raw_path(b"debian/\xff.c"), raw_path(b"a\xe2\x82b"),
+                            raw_path(b"\xf0\x9f\x98"), raw_path(b"\xff\xfe"), raw_path(b"\xed\xa0\x80")]),
+            (f"{prefix}4", [hexs("\ufffd"), raw_path(b"\xff"), raw_path(b"\xc0\xaf")])]
+
+def glob_invalid_escape_cases(prefix="e"):
+    """an invalid escape in one pattern must not keep the other patterns from answering"""
+    return [(f"{prefix}0", [hexs("* zzz\\"), hexs("a"), hexs("zzz\\"), hexs("")]),
+            (f"{prefix}1", [hexs("zzz\\ *"), hexs("a"), hexs("zzz")]),
+            (f"{prefix}2", [hexs("\\x"), hexs("x"), hexs("\\x"), hexs("")]),
+            (f"{prefix}3", [hexs("a\\/b \\"), hexs("a/b"), hexs("a\\/b")]),
+            (f"{prefix}4", [hexs("\\a\\* \\*"), hexs("*"), hexs("a*")])]
 
 def copyright_nonutf8_cases(prefix="v"):
     H = "Format: " + FORMAT + "\n"
     doc = H + "\nFiles: *\nCopyright: c\nLicense: MIT\n text\n\nFiles:\nCopyright: c\nLicense: X\n"
-    return [(f"{prefix}0", [hexs(doc), "2", "!ff", hexs("a"), hexs("MIT")]),
-            (f"{prefix}1", [hexs(H + "\nFiles:\nCopyright: c\nLicense: X\n"), "1", "!fffe"])]
+    doc2 = H + "\nFiles: *\nCopyright: c\nLicense: MIT\n text\n\nFiles: debian/?.c\nCopyright: c\nLicense: X\n\nLicense: X\n x text\n"
+    return [(f"{prefix}0", [hexs(doc), "2", raw_path(b"\xff"), hexs("a"), hexs("MIT")]),
+            (f"{prefix}1", [hexs(H + "\nFiles:\nCopyright: c\nLicense: X\n"), "1", raw_path(b"\xff\xfe")]),
+            (f"{prefix}2", [hexs(doc2), "3", raw_path(b"debian/\xff.c"), raw_path(b"debian/\xff\xff.c"), hexs("debian/a.c"), hexs("X")])]
+
+def copyright_invalid_escape_cases(prefix="i"):
+    """the audit's document: a later paragraph with 'Files: zzz\\' — every lookup must still answer"""
+    H = "Format: " + FORMAT + "\n"
+    A = "\nFiles: *\nCopyright: c\nLicense: MIT\n text\n"
+    out = []
+    for i, bad in enumerate(["zzz\\", "\\x", "a \\q b", "src/\\", "* \\"]):
+        B = "\nFiles: " + bad + "\nCopyright: c\nLicense: GPL\n"
+        out.append((f"{prefix}{2*i}", [hexs(H + A + B), "3", hexs("foo.c"), hexs("zzz"), hexs(""), hexs("MIT"), hexs("GPL")]))
+        out.append((f"{prefix}{2*i+1}", [hexs(H + B + A), "3", hexs("foo.c"), hexs("a"), hexs("b"), hexs("MIT")]))
+    return out
+
+def copyright_field_case_cases(prefix="k"):
+    """members of the known-finding class field-name-case"""
+    H = "Format: " + FORMAT + "\n"
+    P = "\n%s: *\n%s: c\n%s: MIT\n text\n"
+    docs = [H + P % ("files", "Copyright", "License"), H + P % ("FILES", "Copyright", "License"),
+            H + P % ("Files", "Copyright", "license"), H + P % ("Files", "copyright", "License"),
+            H + P % ("Files", "Copyright", "License") + "\nlicense: MIT\n other\n",
+            "format: " + FORMAT + "\n" + P % ("Files", "Copyright", "License"),
+            "FORMAT: x\n"]
+    return [(f"{prefix}{i}", [hexs(d), "2", hexs("a"), hexs("b/c"), hexs("MIT")]) for i, d in enumerate(docs)]
 
 # ------------------------------------------------------------------ copyright stream
 FORMAT = "https://www.debian.org/doc/packaging-manuals/copyright-format/1.0/"
